@@ -167,6 +167,7 @@ class ExpImpl:
         dims = [[b[2 * i] / U, b[2 * i + 1] / U] for i in range(self.nd)]
         self.space = ESpace(dims, torus=bool(torus), random=self.model.random, n_agents=cap)
         self.agents, self.ids = {}, {}
+        self.held = {}  # references to space.agent_positions the "user" keeps
 
     def pt(self, xs):
         v = [int(x) / U for x in xs]
@@ -220,6 +221,14 @@ class ExpImpl:
                 if int(w[1]) not in self.agents:
                     return "ok"  # no such object: nothing to call
                 self.agents[int(w[1])].pos = self.pt(w[2:])
+                return "ok"
+            if k == "hold":
+                self.held[int(w[1])] = sp.agent_positions
+                return "ok len=%d" % len(self.held[int(w[1])])
+            if k == "hread":
+                return "ok rows=" + ";".join(",".join(to_units(c) for c in row) for row in self.held[int(w[1])])
+            if k == "hraw":
+                self.held[int(w[1])][int(w[2])] = self.pt(w[3:])
                 return "ok"
             if k == "get":
                 return "ok pos=" + ",".join(to_units(v) for v in self.agents[int(w[1])].position.copy())
@@ -465,6 +474,18 @@ def oracle(sc, obs):
                         bad.append(f"reject-valid: {line} -> {o}")
                     else:
                         sp.pos[sp.order[i]] = p
+            elif k == "hraw":
+                # a write through a reference to agent_positions kept from earlier: whether it still reaches the space depends on
+                # re-allocations, which the property does not speak about -- no position is known afterwards until assigned again
+                if o == "ok":
+                    for a in sp.pos:
+                        sp.pos[a] = None
+            elif k == "hread":
+                # agent_positions, freshly taken, lists the positions of space.agents in order
+                if prev and prev[0] == ["hold", w[1]] and all(v is not None for v in sp.pos.values()):
+                    want = "ok rows=" + ";".join(",".join(map(str, sp.pos[a])) for a in sp.order)
+                    if o != want:
+                        bad.append(f"view-rows: agent_positions shows {o}, positions of space.agents in order are {want}")
             elif k == "remove":
                 a = int(w[1])
                 if a in sp.pos:
@@ -572,6 +593,13 @@ class Gen:
         self.next_id = 1
         self.lines = []
         self.removed = []
+        # references to agent_positions the user keeps.  They are used only where any growth policy gives the same answer: the
+        # initial array (n_agents rows) must be re-allocated by the first add that finds it full and not before, and no array is
+        # re-allocated without an add.  (How much the array grows is the model's `growBy`; it is not observed.)
+        self.cap0 = 0  # rows of the initial array (set by scenario())
+        self.realloc = False  # the initial array has been replaced
+        self.nnew = 0  # adds so far
+        self.held = {}  # slot -> (adds when taken, length, taken while the initial array was in use)
 
     # coordinates --------------------------------------------------------------------
     def coord(self, i, oob_p):
@@ -707,6 +735,9 @@ class Gen:
         a = self.next_id
         self.next_id += 1
         self.emit(f"new {a}")
+        self.nnew += 1
+        if self.cap0 <= len(self.sp.order):
+            self.realloc = True  # the initial array is full: this add re-allocates
         self.sp.pos[a] = None
         self.sp.order.append(a)
         p = self.point(0.15) if self.torus else self.inside_point()
@@ -752,20 +783,30 @@ class Gen:
             self.emit(f"get {a}")
             if R.random() < 0.3:
                 self.emit(f"radius {self.fmt(self.inside_point())} {R.choice([64, 200, 1000])}")
-        elif k < 0.478:
+        elif k < 0.49:
             # user writes that do not go through the position setter
-            if R.random() < 0.6:
+            r = R.random()
+            if r < 0.3:
                 i = R.randrange(n) if R.random() < 0.9 else n
                 p = self.inside_point() if R.random() < 0.75 else self.point(0.5)
                 self.emit(f"raw {i} {self.fmt(p)}")
                 if i < n:
                     sp.pos[sp.order[i]] = tuple(p)
                     self.emit(f"get {sp.order[i]}")
-            else:
+            elif r < 0.45:
                 a = self.member() if R.random() < 0.8 or not self.removed else R.choice(self.removed)
                 self.emit(f"compat {a} {self.fmt(self.point(0.3))}")
                 self.emit(f"get {a}")
-        elif k < 0.495 and self.removed:
+            elif not self.held or r < 0.65:
+                # v = space.agent_positions, kept while the history goes on
+                slot = R.randrange(3)
+                self.emit(f"hold {slot}")
+                self.held[slot] = (self.nnew, n, not self.realloc)
+                if R.random() < 0.5:
+                    self.emit(f"hread {slot}")
+            else:
+                self.held_use()
+        elif k < 0.505 and self.removed:
             # life cycle: calls on an agent object after its remove()
             a = R.choice(self.removed)
             self.emit(R.choice([f"get {a}", f"set {a} {self.fmt(self.point(0.2))}", f"remove {a}", f"nir {a} 64", f"nn {a} 1",
@@ -773,7 +814,7 @@ class Gen:
                                 f"dists {self.fmt(self.inside_point())} : {a}", f"diffs {self.fmt(self.inside_point())} : {a}"]))
             if R.random() < 0.5:
                 self.emit(R.choice(["agents", f"radius {self.fmt(self.inside_point())} 200"]))
-        elif k < 0.535:
+        elif k < 0.545:
             a = self.member()
             self.emit(f"remove {a}")
             del sp.pos[a]
@@ -808,8 +849,32 @@ class Gen:
                 self.emit(f"diffs {self.fmt(pt)}{sub}")
         else:
             self.emit(f"{R.choice(['inb', 'correct'])} {self.fmt(self.point(0.3))}")
+        if self.held and sp.order and R.random() < 0.15:
+            self.held_use()  # a kept reference is used again later: after re-slicing, compaction, re-allocation
         if self.rr and R.random() < 0.5 and sp.order:
             self.emit(R.choice(["agents", f"get {self.member()}", f"radius {self.fmt(self.inside_point())} 200"]))
+
+    def held_use(self):
+        """read or write through a reference to agent_positions taken earlier"""
+        R, sp = self.R, self.sp
+        n = len(sp.order)
+        usable = [k for k, (at, _, initial) in sorted(self.held.items()) if initial or at == self.nnew]
+        if not usable:
+            return
+        slot = R.choice(usable)
+        if R.random() < 0.45:
+            self.emit(f"hread {slot}")
+            return
+        at, hlen, initial = self.held[slot]
+        live = at == self.nnew or not self.realloc  # still a view of the space's array
+        i = R.randrange(hlen) if hlen and R.random() < 0.9 else hlen
+        p = self.inside_point()
+        self.emit(f"hraw {slot} {i} {self.fmt(p)}")
+        if i < hlen and live and i < n:
+            sp.pos[sp.order[i]] = tuple(p)  # same array, a row in use: the agent that has the row now is moved
+        self.emit(R.choice([f"hread {slot}", f"get {self.member()}", f"hread {R.choice(usable)}"]))
+        if R.random() < 0.5:
+            self.emit(f"radius {self.fmt(self.inside_point())} {R.choice([64, 200, 1000])}")
 
     def scenario(self, nops=None):
         R = self.R
@@ -819,7 +884,7 @@ class Gen:
             if R.random() < 0.3:
                 self.emit(f"nbrs {self.fmt(self.inside_point())} {R.choice([0, 64, 1000])} 1")  # query on the empty space
         else:
-            cap = R.choice(CAPS)
+            cap = self.cap0 = R.choice(CAPS)
             head = f"scenario exp {R.choice('aaal')} {int(self.torus)} {cap} " + " ".join(f"{lo} {hi}" for lo, hi in self.bounds)
             if R.random() < 0.3:
                 pt = self.inside_point()
